@@ -503,6 +503,22 @@ def check_C15(chk, tier, seed):
                 for (kc, ty) in ((ka, ta), (kb, tb)):
                     cases.append(f"X {did} {xb(one_avp_frame(kc[0], kc[1], SAMPLE_DATA[ty]))}")
                     expect.append(("scope", ty, f"{TY_XML_NAME[ta]}/{TY_XML_NAME[tb]} sharing one name ({how})", (ka, kb), kc[1]))
+    # one document, several <application> blocks (Base = id 0 among them, first, in the middle, last) declaring the same pair with
+    # different types: the document is read top to bottom, the last declaration is the entry - whichever application it stands under
+    for order in ((4, 0), (0, 4), (4, 0, 16777238), (16777238, 4, 0)):
+        did = f"t{k}"
+        k += 1
+        tys = ["u64", "utf", "u32"]
+        apps = [dict(name=f"App-{a}".encode(), id=a, cmds=[], avps=[dict(code=5001, vendor=None, name=f"Pair-{j}".encode(), tyname=TY_XML_NAME[tys[j]].encode(), must=None),
+                                                                      dict(code=5002, vendor=77, name=f"VPair-{j}".encode(), tyname=TY_XML_NAME[tys[j]].encode(), must=None)])
+                for j, a in enumerate(order)]
+        prelude.append(dict_line(did, [load_toks(gen_xml(apps), apps)]))
+        last = tys[len(order) - 1]
+        for (c, v) in ((5001, None), (5002, 77)):
+            for ty in tys[: len(order)]:
+                cases.append(f"X {did} {xb(one_avp_frame(c, v, SAMPLE_DATA[ty]))}")
+                # the payload of another declaration's type: typed by the LAST declaration all the same (refused if it does not fit it)
+                expect.append(("kind-or-refuse", last, f"({c}, {v}) declared under applications {order} in this order, payload of a {TY_XML_NAME[ty]}"))
     # codes that a lossy table would fold onto a defined one: c + k*1024, c + 2^16, c + 2^20, c + 2^24, c + 2^31, c with its
     # octets swapped - none of them is defined, each must be refused; and the defined code itself still decodes
     did = f"t{k}"
@@ -541,7 +557,7 @@ def check_C15(chk, tier, seed):
     # the same table again in another order: consecutive decodes now carry the SAME (code, vendor) on the wire under
     # DIFFERENT dictionaries (an answer remembered from the previous decode, keyed by code and vendor only, would be wrong)
     n0 = len(cases)
-    for i in sorted(range(n0), key=lambda i: (str(expect[i][4]), i)):
+    for i in sorted(range(n0), key=lambda i: (str(expect[i][4] if len(expect[i]) > 4 else expect[i][-1]), i)):
         cases.append(cases[i])
         expect.append(expect[i])
     # (b) every definition of the shipped dictionaries
@@ -823,6 +839,11 @@ def check_C16(chk, tier, seed):
             start = ("NEW", 272, 4, 0x80, 1, 2)
             cases.append(hist_line(did, start, pre + [("ADDNAME", d["name"], v)] + post))
             expect.append(("inhistory", hist_line(did, start, pre + [("ADDAVP", d["code"], d["vendor"], 0x40 if d["m"] else 0, v)] + post), None, did))
+            if d["ty"] in ("oct", "utf", "id", "uri") and j % 3 == 0:
+                # the same name several times in one message, with values of different lengths: each AVP is its own
+                vs = [("L", (d["ty"], b"abcd")), ("L", (d["ty"], b"abcdefghijk")), ("L", (d["ty"], b"")), ("L", (d["ty"], b"xy"))][: 2 + j % 3]
+                cases.append(hist_line(did, start, [("ADDNAME", d["name"], x) for x in vs] + post))
+                expect.append(("inhistory", hist_line(did, start, [("ADDAVP", d["code"], d["vendor"], 0x40 if d["m"] else 0, x) for x in vs] + post), None, did))
     # unknown names interleaved in histories: the failed call must change nothing
     n = 600 if tier == "quick" else 30000
     for i in range(n):
@@ -930,6 +951,14 @@ def check_C16(chk, tier, seed):
             chk.corr_break("observation differs from the model", dict(case=c, impl=short(im, 2000), model=short(mobs, 2000)))
         if i % max(1, len(cases) // 6) == 0:
             chk.sample(dict(case=c, impl=short(im, 160), P=ok))
+    # a fresh dictionary shared by eight threads whose first by-name lookups overlap (300 dictionaries, one after the other)
+    im = core.run_sharded([eng.harness, "codec"], eng.prelude, ["NAMERACE 300"], shards=1, timeout=600)[0]
+    chk.case("NAMERACE 300", True)
+    chk.validated += 1
+    chk.count("by-name-from-several-threads-at-once")
+    if not im.startswith("NAMERACE rounds=300 failures=0"):
+        chk.violation("declared names were not found when several threads built AVPs by name from a freshly created dictionary at the same moment: " + short(im, 200),
+                      dict(case="NAMERACE 300", impl=short(im, 300)))
     # by-name additions that carry a message past what a Message Length field can hold (16 MiB): a declared name is found and its AVP
     # appended like any other (whether the message can be ENCODED is C05's business), an unknown name fails and changes nothing
     for (n, size) in ((2, 16), (2, 9 << 20), (20, 1 << 20)):
